@@ -40,6 +40,16 @@ def shards(tier, seed):
         for b in ("J", "B"):
             out.append({"name": f"{'+'.join(grp)}-{b}", "build": b,
                         "params": {"kinds": grp, "cases": n if b == "J" else n // 2}})
+    if tier == "thorough":
+        # independent syscall-level recorder: the whole shard runs under strace -f
+        import tempfile
+        log = os.path.join(tempfile.gettempdir(), f"vmon-strace-c10-{os.getpid()}-{seed}.log")
+        out.append({"name": "strace-recorder", "build": "J", "timeout": 7000,
+                    "prefix": ["strace", "-f", "-qq", "-e",
+                               "trace=openat,open,creat,mkdir,mkdirat,rename,renameat,renameat2,unlink,unlinkat,rmdir",
+                               "-o", log],
+                    "env": {"VMON_STRACE_LOG": log},
+                    "params": {"kinds": ["point", "polygon"], "cases": 25, "strace": True}})
     return out
 
 
@@ -141,12 +151,51 @@ def check_case(ctx, case):
                 dd.from_pandas(prev, npartitions=2).pack_partitions_to_parquet(
                     path, npartitions=7 if case["previous"] == "larger" else 1, p=4)
             fs = fsmon.MonFS()
+            slog = os.environ.get("VMON_STRACE_LOG") if case.get("strace") else None
+            if slog:
+                os.mkdir(os.path.join(ctx.scratch, f"MARK-begin-{case['seed']}"))
             ok, res, tb = ctx.guarded(lambda: ddf.pack_partitions_to_parquet(
                 path, filesystem=fs, npartitions=k, p=p, compression=case["compression"],
                 tempdir_format=tempdir_format(mode, root), _retry_args=RETRY,
                 overwrite=bool(case["previous"])))
             fs.armed = False
             ctx.count("fs_events", len(fs.events))
+            if slog:
+                os.mkdir(os.path.join(ctx.scratch, f"MARK-end-{case['seed']}"))
+                from .. import straceparse
+                ev = straceparse.parse(slog, os.path.join(ctx.scratch, f"MARK-begin-{case['seed']}"),
+                                       os.path.join(ctx.scratch, f"MARK-end-{case['seed']}"))
+                created, removed, renames = straceparse.summarize(ev)
+                ctx.count("strace_syscalls", len(ev))
+                ctx.count("strace_runs")
+                noise = ("/proc/", "/sys/", "/dev/", "/tmp/numba", os.path.expanduser("~/.cache"))
+                inside = os.path.realpath(root)
+                outside = sorted({c for c in created if not os.path.realpath(c).startswith(inside)
+                                  and not c.startswith(noise) and "__pycache__" not in c
+                                  and not os.path.realpath(c).startswith(os.path.realpath(ctx.scratch) + "/MARK")})
+                if outside:
+                    ctx.violation("strace", f"pack_to_parquet:file-created-outside-the-sandbox:{mode}", w,
+                                  expected=[], observed=outside[:10], case=case)
+                moved_away = {a for a, _ in renames}
+                moved_to = {b for _, b in renames}
+                live = {c for c in set(created) | moved_to
+                        if os.path.realpath(c).startswith(inside) and os.path.lexists(c)}
+                if ok:
+                    exp_live = {os.path.join(inside, "ds.parq", n_) for n_ in
+                                expected_listing(len(fsmon.dataset_snapshot(path)["parts"]))}
+                    exp_live |= {os.path.join(inside, "ds.parq")}
+                    ghost = sorted(os.path.relpath(c, inside) for c in live
+                                   if os.path.realpath(c) not in exp_live)
+                    if ghost:
+                        ctx.violation("strace", f"pack_to_parquet:syscall-log:created-and-still-present:{mode}", w,
+                                      expected=[], observed=ghost[:10], case=case)
+                    # what the recording filesystem saw must be a subset of what the kernel saw
+                    fs_created, _, _ = fsmon.created_removed(fs.events)
+                    unseen = sorted(os.path.relpath(c, inside) for c in fs_created
+                                    if os.path.realpath(c) not in {os.path.realpath(x) for x in created}
+                                    and os.path.realpath(c).startswith(inside) and not os.path.isdir(c))
+                    ctx.extra.setdefault("fs_log_entries_without_syscall", 0)
+                    ctx.extra["fs_log_entries_without_syscall"] += len(unseen)
             if not ok:
                 ctx.count("evaluations")
                 ctx.count("raised")
@@ -246,7 +295,16 @@ def run(ctx, spec):
     ctx.require("empty-output-partitions", False)
     for kind in spec["params"]["kinds"]:
         for _ in range(spec["params"]["cases"]):
-            check_case(ctx, gen_case(ctx.rng, kind))
+            case = gen_case(ctx.rng, kind)
+            if spec["params"].get("strace"):
+                case["strace"] = True
+            check_case(ctx, case)
+    log = os.environ.get("VMON_STRACE_LOG")
+    if spec["params"].get("strace") and log:
+        try:
+            os.unlink(log)
+        except OSError:
+            pass
 
 
 def replay(ctx, v):
